@@ -20,8 +20,8 @@ func init() {
 func c04Reclaim() {
 	cool := drawCooldown()
 	b := newBuffer(nil, cool)
-	nCons := simrt.DrawRange(1, 3)
-	nProd := simrt.DrawRange(1, 2)
+	nCons := simrt.DrawRange(1, 3+2*(simrt.Scale()-1))
+	nProd := simrt.DrawRange(1, 2*simrt.Scale())
 	type cons struct {
 		c         bigbuff.Consumer
 		reads     int // how many values it will read in total
@@ -42,7 +42,7 @@ func c04Reclaim() {
 	prods := make([]*prod, nProd)
 	for i := range prods {
 		p := &prod{}
-		for k := simrt.DrawRange(1, 3); k > 0; k-- {
+		for k := simrt.DrawRange(1, 3*simrt.Scale()); k > 0; k-- {
 			n := simrt.DrawRange(1, 3)
 			p.batches = append(p.batches, n)
 			p.pauses = append(p.pauses, drawPause())
